@@ -44,6 +44,8 @@ func checkC06(r *Report, p *Program) {
 	r06_3(r, p)
 	r06_4(r, p)
 	r06_5(r, p)
+	// the observed (cached) child that was compared is not edited behind the comparison
+	r17_1(r, p)
 }
 
 // R06.1 method decision table.
